@@ -6,6 +6,14 @@ MODE_OF = {'set_sim_join': 'join', 'position_filter': 'position', 'prefix_filter
 BIG = 1000000
 
 
+def eff_t(case):
+    """The threshold the Size/Prefix/Position/Suffix filter objects work with: for OVERLAP the ceiling."""
+    p, q = case['t']
+    if case['meas'] == 'OVERLAP' and q != 1:
+        return [-(-p // q), 1]
+    return [p, q]
+
+
 def eligible(case):
     if case['t'][1] > (100 if case['meas'] == 'COSINE' else 1000):
         return False                  # the transcribed arithmetic of Filters.tla uses 32-bit products
@@ -102,7 +110,7 @@ def build(case, events, tables, tid, r_range=None):
     vocab = sorted({t for tab, attr in ((ltable, case.get('lattr', 's')), (rtable, case.get('rattr', 's')))
                     for v in tab[attr].tolist() if not record.is_missing(v) for t in oracle.tokenize(v)})
     ids = {t: i + 1 for i, t in enumerate(vocab)}
-    rec = {'tid': tid, 't': list(case['t']), 'op': case['op'], 'L': L, 'R': R,
+    rec = {'tid': tid, 't': eff_t(case), 'op': case['op'], 'L': L, 'R': R,
            'ord': [], 'sizes': [], 'plens': [], 'index': [], 'empties': [], 'minlen': BIG, 'maxlen': 0,
            'probes': [], 'rows': []}
     if 'ordering' in starts[0]:
@@ -357,7 +365,7 @@ def build_suffix(case, events, tables, tid):
     vocab = sorted({t for tab, attr in ((ltable, case.get('lattr', 's')), (rtable, case.get('rattr', 's')))
                     for v in tab[attr].tolist() if not record.is_missing(v) for t in oracle.tokenize(v)})
     ids = {t: i + 1 for i, t in enumerate(vocab)}
-    rec = {'tid': tid, 't': list(case['t']), 'L': L, 'R': R,
+    rec = {'tid': tid, 't': eff_t(case), 'L': L, 'R': R,
            'ord': [[ids.get(t, 0), r] for t, r in starts[0].get('ordering', [])], 'events': [], 'rows': []}
     for e in events:
         if e['ev'] == 'filter_suffix':
